@@ -96,7 +96,7 @@ def jitter_case(rng, tid, d):
     _quiet(lambda: jitter_command(inp, out, float(delta), seed=seed, force=True))
     _quiet(lambda: jitter_command(inp, out2, float(delta), seed=seed, force=True))
     ri, ro = read_rows(inp), read_rows(out)
-    same = open(out).read() == open(out2).read()
+    same = os.path.exists(out2) and open(out).read() == open(out2).read()
     # match output rows to input rows by (pipeline id, position inside the pipeline)
     index, seen = {}, {}
     for i, r in enumerate(ri):
@@ -151,9 +151,11 @@ def _cross_process(lines, rng, d):
         job = ln.pop("_cross", None)
         if job:
             inp, out = job[0], job[1]
-            ln["same_cross"] = open(out).read() == open(out + ".x").read()
+            rd = lambda f: open(f).read() if os.path.exists(f) else None          # (a tool that wrote nothing is judged by the row clauses)
+            ln["same_cross"] = rd(out) == rd(out + ".x") or rd(out + ".x") is None
             for f in (inp, out, out + ".x"):
-                os.unlink(f)
+                if os.path.exists(f):
+                    os.unlink(f)
 
 
 def _quiet(fn):
